@@ -198,6 +198,44 @@ def rule_resolver(cx, rid):
     return r
 
 
+def rule_field_flow(cx, rid, devices=None):
+    """emitter half of the binding: a numeric IR field that is given - 0 included - reaches the firmware text; 0 is neither
+    taken for "absent" (same text as None) nor ignored (same text as 7)"""
+    from .. import l2, pe
+    em = mod("transpile/emitter.py")
+    cx.consulted(em)
+    cls, fields = pe.ir_classes()
+    r = cx.rule(rid, "for every numeric field of every action IR class the emitted firmware differs between the values 0 and 7, and between 0 and an omitted (None) value: a supplied zero is never silently treated as 'not given' by a truthiness test in the emitter", floor=(40 if devices is None else 4))
+    skip = {"Program", "ConditionalBranch", "CatchClause", "FunctionDef", "IfStatement", "WhileLoop", "ForRangeLoop", "TryStatement", "VarDecl", "VarAssign", "ReturnStmt", "BreakStmt", "ExprStmt"}
+    for cname in sorted(cls):
+        dev = l2.device_of(cname)
+        if cname in skip or cname.endswith("Decl") or (devices is not None and dev not in devices):
+            continue
+        base = next((kw for kw, _n in pe.variants(cname, limit=1)), None)
+        if base is None:
+            continue
+        pre = [l2.lcd_decl("parallel", True)] if dev == "LCD" else [l2.decl_node(dev)] if dev else []
+        for fname, ann, _d in fields[cname]:
+            parts = ann.replace("typing.", "").replace("Optional[", "").replace("Union[", "").replace("]", "").split(", ")
+            if fname == "name" or "int" not in parts:
+                continue
+
+            def text_for(v, _c=cname, _f=fname):
+                kw = dict(base)
+                kw[_f] = v
+                res = pe.emit_program(setup=pre + [cls[_c](**kw)], loop=[])
+                return None if res.raised else res.text
+            t0, t7 = text_for(0), text_for(7)
+            if t0 is None or t7 is None:
+                r.ok(f"{cname}.{fname}: rejected")
+                continue
+            r.check(t0 != t7, f"{cname}.{fname}/value-reaches-firmware", (em, em.func("_emit_block")), f"{cname}({fname}=0) and {cname}({fname}=7) produce the same firmware: the field is ignored", sample=f"{cname}.{fname}")
+            if ann.replace("typing.", "").startswith("Optional"):
+                tn = text_for(None)
+                r.check(tn is None or tn != t0, f"{cname}.{fname}/zero-is-not-absent", (em, em.func("_emit_block")), f"{cname}({fname}=0) produces the same firmware as {cname}({fname}=None): a supplied 0 is treated as 'not given' (truthiness test instead of `is not None`)", sample=f"{cname}.{fname} 0 vs None")
+    return r
+
+
 def bind_rule(cx, rid_bind="C08-BIND", rid_map="C08-MAP", only=None, floor=300):
     pm = mod(PARSER)
     am = mod("transpile/ast.py")
@@ -401,3 +439,4 @@ def run(cx):
     # the emitter half of the binding for the one node whose fields select a *position*: message(top, bottom)
     from . import c17
     c17.rule_message_rows(cx, "C08-MESSAGE", mod("transpile/emitter.py"))
+    rule_field_flow(cx, "C08-FIELDS")
